@@ -49,6 +49,9 @@ package utils
 //@   pure
 //@ func IsStreamingPayload
 //@   pure
+// every STREAMING-* payload type is a streaming payload (its body is chunk-encoded, whether the gateway can decode it or not)
+//@   ensures {C12,C02} [every-streaming-type-is-recognised] (str == "STREAMING-UNSIGNED-PAYLOAD-TRAILER" || str == "STREAMING-AWS4-HMAC-SHA256-PAYLOAD" \
+//@        || str == "STREAMING-AWS4-HMAC-SHA256-PAYLOAD-TRAILER" || str == "STREAMING-AWS4-ECDSA-P256-SHA256-PAYLOAD" || str == "STREAMING-AWS4-ECDSA-P256-SHA256-PAYLOAD-TRAILER") ==> ret0
 
 // The request that is re-signed for comparison is rebuilt from EVERY header line of the incoming
 // request (a signed header that occurs twice must contribute both values).
@@ -237,5 +240,8 @@ package utils
 //@   frame none
 //@   ensures {C12} [an-error] ret0 != nil
 //@ func NewChunkReader
+// a chunk encoding that is not implemented is refused: no reader is returned that would hand on the encoded bytes
+//@   ensures {C12} [an-unimplemented-chunk-encoding-is-refused] (ctx.Get("X-Amz-Content-Sha256") == "STREAMING-AWS4-ECDSA-P256-SHA256-PAYLOAD" \
+//@        || ctx.Get("X-Amz-Content-Sha256") == "STREAMING-AWS4-ECDSA-P256-SHA256-PAYLOAD-TRAILER") ==> ret1 != nil
 //@   at-return {C12} [the-decoder-is-returned-unwrapped] when err == nil :: ensures (called("utils.NewUnsignedChunkReader") && ret0 == iface(result("utils.NewUnsignedChunkReader", 0))) \
 //@        || (called("utils.NewSignedChunkReader") && ret0 == result("utils.NewSignedChunkReader", 0))
